@@ -135,7 +135,11 @@ func (p *parser) on_parser_term__token(tok Token) *ast.ParserTerm {
 		return &ast.ParserTerm{Name: string(tok.Str)}
 	case LITERAL:
 		p.checkEscapes(tok)
-		return &ast.ParserTerm{Alias: fixLiteral(tok.Str)}
+		alias := fixLiteral(tok.Str)
+		if alias == "" {
+			p.errs.Errorf(tok.Pos, "literal cannot be empty")
+		}
+		return &ast.ParserTerm{Alias: alias}
 	case ERROR_KEYWORD:
 		return &ast.ParserTerm{Type: ast.ParserTermError}
 	default:
